@@ -313,6 +313,12 @@ pub(crate) trait ChannelObserver: Send {
     fn len(&self) -> usize;
 }
 
+impl fmt::Debug for dyn ChannelObserver {
+    fn fmt(&self, f: &mut fmt::Formatter<'_>) -> fmt::Result {
+        f.debug_struct("ChannelObserver").finish_non_exhaustive()
+    }
+}
+
 /// A handle to a channel that can observe the current number of messages.
 ///
 /// Multiple [`Observer`]s can be created using the [`Receiver::observer`]
